@@ -23,8 +23,12 @@ def run(ctx):
     thorough = ctx["tier"] == "thorough"
     common.import_dds()
 
+    prev_ok = {}
+
     def on_record(rec, s):
         res.evaluations += 1
+        was_ok = prev_ok.get(rec.hist, False)
+        prev_ok[rec.hist] = rec.real["error"] is None
         res.count("edit_" + rec.edit["kind"])
         hist.compare_with_model(rec, res, what=("log", "paths", "value"))
         if rec.real["error"] is not None:
@@ -42,6 +46,16 @@ def run(ctx):
                 res.violations.append({"what": "kept function bodies %s were executed although nothing they can observe changed (step kind: %s)" % (ran, kind),
                                        "input": {"step": rec.brief(), "executed": rec.real["log"],
                                                  "source": progs.render_world(rec.world, "extmod")}, "kf": None})
+        elif kind == "body" and rec.edit.get("after_call_of"):
+            # the edit is on a line of the caller strictly after the end of a kept call: the text up to the call, the
+            # caller's inputs and the calls before it are unchanged, so the kept callee (single call site) is not re-run
+            res.count("edit_after_call")
+            g = rec.edit["after_call_of"]
+            if was_ok and g in ran:
+                res.violations.append({"what": "kept function %s (path %s) was re-executed by an edit of a caller line AFTER the end of its call" % (g, rec.edit.get("after_path")),
+                                       "input": {"step": rec.brief(), "executed": rec.real["log"],
+                                                 "before": progs.render_world(rec.prev_world, "extmod"),
+                                                 "after": progs.render_world(rec.world, "extmod")}, "kf": None})
         elif kind in ("body", "var", "const_arg"):
             free = hist.context_free_nodes(rec.world)
             for path, fname in free.items():
